@@ -30,6 +30,9 @@ class Report:
         self.known = load_known()
         self.replay_dir = os.path.join(engine.WORK, 'replays', pid)
         os.makedirs(self.replay_dir, exist_ok=True)
+        for f in os.listdir(self.replay_dir):
+            if f.startswith('%s_%s_' % (pid, tier)):
+                os.remove(os.path.join(self.replay_dir, f))
         os.makedirs(os.path.join(engine.VERIF, 'evidence'), exist_ok=True)
 
     def log(self, *a):
